@@ -327,7 +327,7 @@ def _vals(rng, dtype, n, vclass, op):
         if op in ("unique", "unique_counts") and vclass == "nonfinite":
             return [x for x in [rng.choice([0.0, -0.0, 1.5, float("inf"), float("-inf"), -2.25]) for _ in range(n)]]
         return gen.values(rng, dtype, n, vclass).tolist()
-    return gen.values(rng, dtype, n, "extreme" if vclass in ("nonfinite", "extreme") else "small").tolist()
+    return gen.values(rng, dtype, n, "extreme" if vclass in ("nonfinite", "extreme") else ("pow2" if vclass == "pow2" else "small")).tolist()
 
 
 def gen_case(rng, lens, dtype, vclass, op=None, recv="fresh"):
@@ -367,6 +367,29 @@ def directed():
         for op in ("sort", "unique_counts", "cumsum", "diff", "add.acc"):
             yield gen_case(rng, [2] + [0] * run + [3, 1, 2], "int64", "dups", op)
             yield gen_case(rng, [0] * run + [3, 2], "int16", "dups", op)
+    # value ranges that are a power of two (or a hair above) at every magnitude: integer keys / offsets computed from the range must hold the largest value
+    for dtype in ("int64", "uint64", "int32", "int16"):
+        for _ in range(12):
+            for op in ("sort", "unique", "unique_counts", "cumsum", "diff"):
+                yield gen_case(rng, rng.choice([[4], [3, 0, 5], [2, 6, 1, 0]]), dtype, "pow2", op)
+    for k_ in (49, 50, 53, 60, 62):
+        for vals_ in ([7, 2 ** k_, 3, 0], [2 ** k_ + 1, 1, 5, 2 ** k_], [0, 2 ** k_ - 1, 2 ** k_, 1]):
+            for op in ("sort", "unique", "unique_counts"):
+                yield mk_case([4], "int64", vals_, op, 1, "pow2")
+                yield mk_case([1, 3], "uint64", vals_, op, 1, "pow2")
+                yield mk_case([2, 0, 2], "int64", [v - 2 ** (k_ - 1) for v in vals_], op, 1, "pow2")
+    # long rows (thousands of cells per row on average) of narrow integer types over their whole value range
+    for dtype, lens_ in (("int8", [5000, 3000, 0, 4000]), ("uint8", [3000, 3001]), ("int16", [5000, 0, 7000]), ("bool", [4000, 100]), ("int16", [300000, 280000])):
+        ii_ = None if dtype == "bool" else np.iinfo(dtype)
+        tot_ = sum(lens_)
+        vals_ = [bool((i * 7 + i // 13) % 3 == 0) for i in range(tot_)] if ii_ is None else [int(ii_.min) + (i * 7919 + i // 5) % (int(ii_.max) - int(ii_.min) + 1) for i in range(tot_)]
+        for op in (OPS if tot_ < 100000 else ["unique_counts", "sort"]):
+            yield mk_case(lens_, dtype, vals_, op, 1, "extreme")
+    # differences of a very high order (hundreds / thousands): defined like any other order (rows shorter than the order become empty)
+    for nn_ in (300, 1200, 4000):
+        lens_ = [1210, 5, 0, 1300, 4100]
+        yield mk_case(lens_, "int64", [(i * 7 + i // 3) % 11 for i in range(sum(lens_))], "diff", nn_, "small")
+        yield mk_case([nn_ + 2, 1], "int16", [(i * 5) % 7 for i in range(nn_ + 3)], "diff", nn_, "small")
     for ntype in ("uint8", "uint64", "int8", "0d", "int64"):
         for nn in (1, 2, 3):
             c = mk_case([3, 0, 4, 2, 1], "int64", [5, 1, 8, 2, 2, 7, 9, 4, 4, 6], "diff", nn, "small")
@@ -420,7 +443,7 @@ def random_case(rng, tier):
         return gen_chain(rng, tier, rng.choice([r_ for r_ in c02.RECVS if r_ != "readonly"]) if rng.random() < 0.3 else "fresh")
     lens, _ = gen.length_vector(rng, tier)
     dtype = rng.choice(gen.DT_ALL)
-    vclass = rng.choice(["small", "small", "dups", "extreme", "nonfinite"])
+    vclass = rng.choice(["small", "small", "dups", "extreme", "nonfinite", "pow2"])
     recv = rng.choice(c02.RECVS) if rng.random() < 0.3 else "fresh"
     return gen_case(rng, lens, dtype, vclass, recv=recv)
 
